@@ -68,7 +68,8 @@ RULE = (
     'SynthDef(EnvGen.kr/ar(...)), gate a number or a control, the other '
     'arguments numbers or omitted; decoded inputs compared as f32; '
     'non-trivial = >= 2 segments and at least one EnvGen argument given. '
-    'Distinct by sha1 of the canonical case JSON.')
+    'Distinct by sha1 of the canonical case JSON.'
+    ' at-cases may carry an offset; encodings are taken again after _interpolation_format/_at were used on the object.')
 ASSUMPTIONS = [
     'Encoding does not validate levels against shape preconditions; '
     'evaluation is only checked where the documented preconditions hold '
